@@ -39,7 +39,7 @@ T = {
     "C08": ("exploration", "generated first messages x validator behaviours x pipelined follow-ups sent by a raw socket peer using the reference codec; execution log",
             "A raw peer sends every kind of first message (valid/malformed, any serializer id, any handshake payload, known/unknown object) with INVOKE messages pipelined behind it, against scripted validators on both server types; nothing may be logged by any registered object unless the handshake was accepted, and the failure reply must be CONNECTFAIL + reason + close.",
             "reads replies with the reference codec; tolerates a TCP reset instead of CONNECTFAIL only when bytes were pipelined", "4/C08"),
-    "C09": ("exploration", "generated connection/call/re-registration/daemon-shutdown histories against a reference model + deterministic line-level scheduler for racing first calls",
+    "C09": ("exploration", "generated connection/call/re-registration/daemon-shutdown histories against a reference model (thread, multiplex and existing-connection servers) + deterministic line-level scheduler for racing first calls",
             "Histories of connections opening/calling/closing on single/session/percall classes with truthy, falsy and custom-equality instance shapes and failing creators are compared with a reference model of instance identity; racing first calls on a single-mode class are explored under a harness-owned scheduler (all <=2-preemption schedules, then random).",
             "scheduler preempts at source-line granularity only", "4/C09"),
     "C10": ("exploration", "model-based generated histories (open/next/close/disconnect/reconnect/housekeeping - also while an item is being produced - /clock advance) with a virtual clock on live daemons; daemon-internal stream-table operations of 2-3 server threads under a deterministic line-level scheduler (all schedules with <= 1-2 preemptions), oracle = facts common to all sequential orders",
@@ -57,7 +57,7 @@ T = {
     "C14": ("fault_enumeration", "Hypothesis stateful-style operation histories run in lock-step on a dict model, MemoryStorage and SqlStorage; reopen points; every sqlite statement as failure point",
             "Operation histories over a hostile alphabet are applied to a reference map and to both back-ends and compared after every step; the sqlite database is reopened at generated points, and for mutating operations the k-th sqlite statement is made to fail (all k) after which the operation must have had no effect.",
             "sqlite failure injection wraps Pyro5.nameserver.sqlite3 in the test process", "4/C14"),
-    "C15": ("exploration", "deterministic line-level scheduler: exhaustive <=2-preemption interleavings of small op sets + generated schedules; brute-force linearizability oracle",
+    "C15": ("exploration", "deterministic line-level scheduler: exhaustive <=2-preemption interleavings of small op sets (memory and sqlite back-end, both SERVERTYPE settings, stores of several hundred names) + generated schedules; brute-force linearizability oracle",
             "Small sets of concurrent name server operations on shared names are run under a harness-owned scheduler that preempts at source lines of nameserver.py; every run is checked for linearizability against the map model, for the safe-register and remove-count corollaries, for escaped internal errors and deadlock.",
             "memory back-end only under the scheduler; intra-line preemption is a blind spot", "4/C15"),
     "C16": ("exploration", "model-based generated register/unregister/call/return-object/gc histories on a live daemon",
